@@ -123,6 +123,45 @@ func genBigStep(out *bufio.Writer, rng *rand.Rand, count int) int {
 	return count
 }
 
+// genBigMul: arithmetic on cores above 65536 cells with both factors above 65536, so that
+// products pass 2^32 (and sums pass 2^17): every arithmetic opcode and modifier, operands
+// immediate or direct
+func genBigMul(out *bufio.Writer, rng *rand.Rand, count int) int {
+	ops := []gmars.OpCode{gmars.MUL, gmars.MUL, gmars.MUL, gmars.ADD, gmars.SUB, gmars.DIV, gmars.MOD}
+	for n := 0; n < count; n++ {
+		m := []uint64{65537, 70000, 100003}[rng.Intn(3)]
+		cfg := gmars.SimulatorConfig{Mode: gmars.ICWS94, CoreSize: gmars.Address(m), Processes: 2, Cycles: 10,
+			ReadLimit: gmars.Address(m), WriteLimit: gmars.Address(m), Length: 1, Distance: 1}
+		code := make([]gmars.Instruction, 40)
+		big := func() gmars.Address {
+			switch rng.Intn(3) {
+			case 0:
+				return gmars.Address(m - 1 - uint64(rng.Intn(50)))
+			case 1:
+				return gmars.Address(65536 + uint64(rng.Intn(int(m-65536))))
+			default:
+				return gmars.Address(uint64(rng.Int63n(int64(m))))
+			}
+		}
+		for i := range code {
+			code[i] = gmars.Instruction{Op: gmars.DAT, OpMode: gmars.F, AMode: gmars.IMMEDIATE, A: big(), BMode: gmars.IMMEDIATE, B: big()}
+		}
+		am := []gmars.AddressMode{gmars.IMMEDIATE, gmars.DIRECT}[rng.Intn(2)]
+		a := big()
+		if am == gmars.DIRECT {
+			a = gmars.Address(1 + rng.Intn(30))
+		}
+		code[0] = gmars.Instruction{Op: ops[rng.Intn(len(ops))], OpMode: gmars.OpMode(rng.Intn(7)), AMode: am, A: a,
+			BMode: gmars.DIRECT, B: gmars.Address(1 + rng.Intn(30))}
+		c := newAPICase(out, fmt.Sprintf("gm%d", n), "bigstep", cfg, false)
+		c.add(&gmars.WarriorData{Code: code, Start: 0})
+		c.spawn(0, uint64(rng.Int63n(int64(m))))
+		c.runCycle(false)
+		c.end()
+	}
+	return count
+}
+
 // genOverLimit: read / write limits above the core size (Validate accepts them; preset nop256)
 func genOverLimit(out *bufio.Writer, rng *rand.Rand, count int) int {
 	for n := 0; n < count; n++ {
